@@ -14,6 +14,8 @@ var (
 	vhSelCalls  int
 	vhSelDoneAt0 bool // at every reflect.Select so far, the frame's done case was among the cases
 	vhSelDoneIdx int
+	vhSelHook   func()          // runs once, at the next reflect.Select (preemption point)
+	vhSelSeen   []reflect.Value // channels handed to reflect.Select by the preempted activation
 	vhSelChosen int
 	vhDoneChan  reflect.Value
 )
@@ -21,6 +23,16 @@ var (
 // vhSelectModel stands for reflect.Select: any case may fire. It notes where
 // the frame's done case is among the cases (wherever the code puts it).
 func vhSelectModel(cases []reflect.SelectCase) (int, reflect.Value, bool) {
+	if vhSelHook != nil {
+		// a preemption point: another activation may run here
+		h := vhSelHook
+		vhSelHook = nil
+		h()
+		vhSelSeen = nil
+		for _, c := range cases {
+			vhSelSeen = append(vhSelSeen, c.Chan)
+		}
+	}
 	vhSelCalls++
 	vhSelDoneIdx = -1
 	for k := 0; k < len(cases); k++ {
@@ -35,12 +47,9 @@ func vhSelectModel(cases []reflect.SelectCase) (int, reflect.Value, bool) {
 	return vhSelChosen, reflect.ValueOf(true), vNondetBool("recvok")
 }
 
-func vh_C09_block() {
-	vhResetClock()
-	vhStopAt = -1
-	i := vhNewInterp()
-	i.cancelChan = true
-	vhSelCalls, vhSelDoneAt0, vhSelChosen = 0, true, -1
+// vhBlockNode builds the statement for vhBlockOp, generates its closure with
+// the real generator and returns it with a frame holding its channels.
+func vhBlockNode(i *Interpreter) (*node, *frame) {
 	boolT := &itype{cat: boolT, rtype: reflect.TypeOf(true)}
 	chT := &itype{cat: chanT, val: boolT, rtype: reflect.TypeOf(make(chan bool))}
 	next := &node{interp: i, exec: func(*frame) bltn { return nil }}
@@ -84,6 +93,16 @@ func vh_C09_block() {
 		f.data[1] = reflect.ValueOf(make(chan bool))
 		_select(n)
 	}
+	return n, f
+}
+
+func vh_C09_block() {
+	vhResetClock()
+	vhStopAt = -1
+	i := vhNewInterp()
+	i.cancelChan = true
+	vhSelCalls, vhSelDoneAt0, vhSelChosen = 0, true, -1
+	n, f := vhBlockNode(i)
 	vReach("C09.block")
 	if !vSymbolic() {
 		// native replay: the channel is empty and the evaluation is cancelled:
